@@ -75,16 +75,20 @@ def run_case(case):
     # the documented types: time_mapper returns datetime, timeouts are timedelta; `scale` stretches one unit to
     # seconds / hours / days (gaps and timeouts of whole days: timedelta.seconds alone would be 0)
     scale = case.get('scale', 1)
-    base = datetime.datetime(2020, 2, 27, 23, 59, 58)
+    base = datetime.datetime(2020, 2, 27, 23, 59, 58, tzinfo=datetime.timezone.utc if case.get('tz') else None)
     def tm(i):
         return base + datetime.timedelta(seconds=i[0] * scale)
     def td(n):
         return None if n is None else datetime.timedelta(seconds=n * scale)
     clock, phead, head = [0], [], []
+    window_pipeline = [drive.tap(head, clock), rs.data.to_list()]
+    # the same list object first serves another time_split with other settings (thrown away): constructing an operator
+    # must not modify the caller's list nor leak settings into the next construction
+    rs.data.time_split(time_mapper=tm, active_timeout=td(2), inactive_timeout=td(1), closing_mapper=lambda i: True, pipeline=window_pipeline)
     inner = [drive.tap(phead, clock), rs.data.time_split(
         time_mapper=tm, active_timeout=td(active), inactive_timeout=td(inactive),
         closing_mapper=(lambda i: i[1]) if closing else None, include_closing_item=include,
-        pipeline=[drive.tap(head, clock), rs.data.to_list()])]
+        pipeline=window_pipeline)]
     if grouped == 'split':
         ops = [rs.data.split(lambda i: i[2], inner)]       # parent key slot re-used by successive segments
     else:
@@ -144,7 +148,7 @@ def run_case(case):
             if (inactive is not None and b - a == inactive) or (active is not None and b - a == active):
                 exact_gap = True
     has_closing = closing and any(case['flags'])
-    labels = ['scale=%d' % scale, 'active=%s' % active, 'inactive=%s' % inactive, 'closing=%s' % ('inc' if closing and include else ('exc' if closing else 'no')),
+    labels = (['tz-aware'] if case.get('tz') else ['naive']) + ['scale=%d' % scale, 'active=%s' % active, 'inactive=%s' % inactive, 'closing=%s' % ('inc' if closing and include else ('exc' if closing else 'no')),
               ('grouped' if grouped is True else ('under-split' if grouped else 'top')), 'windows=%d' % min(nwin, 4)]
     if exact_gap:
         labels.append('gap==timeout')
@@ -163,7 +167,7 @@ def case_gen(draw):
         't0': draw(st.integers(0, 3)),
         'deltas': draw(st.lists(st.integers(0, 7), min_size=n, max_size=n)),
         'flags': draw(st.lists(st.integers(0, 3).map(lambda x: int(x == 0)), min_size=n, max_size=n)),
-        'grouped': draw(st.sampled_from([False, True, True, 'split'])), 'scale': draw(st.sampled_from([1, 1, 3600, 43200, 86400])),
+        'grouped': draw(st.sampled_from([False, True, True, 'split'])), 'scale': draw(st.sampled_from([1, 1, 3600, 43200, 86400])), 'tz': draw(st.booleans()),
     }
     case['gk'] = draw(st.lists(st.integers(0, 2), min_size=n, max_size=n)) if case['grouped'] else None
     return case
